@@ -15,7 +15,7 @@ import (
 func init() {
 	register(&propDef{
 		ID:          "C04",
-		Explanation: "Decides that the URL sanitiser has the allow-list shape with exactly the listed schemes, and the typed routing — not a WHATWG URL parse of the output: R1 templ.URL is walked as a decision function over the truth assignments of its atoms (colon found, slash before the first colon, one case-insensitive comparison per scheme): the input is returned (converted to SafeURL, unmodified) only when no colon was found, or a slash precedes the first colon, or the text before the first colon equals one of the compared constants; every compared constant is one of {http, https, mailto, tel, ftp, ftps}; every other path returns the constant failure URL, whose own scheme is about:; the compared text is the input up to the FIRST colon; no other normalisation of the input takes place; R2 the generator routes at least (a, href) and (form, action) to the emission `var v templ.SafeURL = <expr>` followed by the HTML-escaped write of string(v) (GEM), and type-level witnesses hold: SafeURL is a defined, non-alias type with underlying string, templ.URL has type func(string) templ.SafeURL, and assigning a plain string variable to a SafeURL variable does not type-check. (the attribute names are compared case-insensitively, as browsers do); R3 the escaper the URL is written through (templ.EscapeString) returns html.EscapeString of its argument on every path: an escaper that keeps existing character references would turn the colon-free, hence accepted, `javascript&colon;…` into a javascript: URL in the attribute. NOT decided: how a browser resolves the returned string (trusted argument: a scheme cannot contain '/', and without ':' there is no scheme), href values arriving through spread attributes.",
+		Explanation: "Decides that the URL sanitiser has the allow-list shape with exactly the listed schemes, and the typed routing — not a WHATWG URL parse of the output: R1 templ.URL is walked as a decision function over the truth assignments of its atoms (colon found, slash before the first colon, one case-insensitive comparison per scheme): the input is returned (converted to SafeURL, unmodified) only when no colon was found, or a slash precedes the first colon, or the text before the first colon equals one of the compared constants; every compared constant is one of {http, https, mailto, tel, ftp, ftps}; every other path returns the constant failure URL, whose own scheme is about:; the compared text is the input up to the FIRST colon; no other normalisation of the input takes place; R2 the generator routes at least (a, href) and (form, action) to the emission `var v templ.SafeURL = <expr>` followed by the HTML-escaped write of string(v) (GEM), and type-level witnesses hold: SafeURL is a defined, non-alias type with underlying string, templ.URL has type func(string) templ.SafeURL, and assigning a plain string variable to a SafeURL variable does not type-check. (the attribute names are compared case-insensitively, as browsers do); R3 the escaper the URL is written through (templ.EscapeString) returns html.EscapeString of its argument on every path: an escaper that keeps existing character references would turn the colon-free, hence accepted, `javascript&colon;…` into a javascript: URL in the attribute. NOT decided: how a browser resolves the returned string (trusted argument: a scheme cannot contain '/', and without ':' there is no scheme), href values arriving through spread attributes. R2 also: the element name by which the dispatcher recognises <a href>/<form action> is the element's Name on every call chain that leads to it — through string parameters, fields of carrier structs and functions that derive one carrier from another.",
 		Assumptions: []string{"a URL reference is relative when it has no ':' or a '/' occurs before its first ':'", "strings.EqualFold is case-insensitive equality"},
 		Trusted:     []string{"go/types", "go/parser", "x/tools go/packages"},
 		Run:         runC04,
@@ -297,6 +297,10 @@ func runC04(c *Ctx) {
 			if elemObj == nil || attrText == "" && attrObj == nil {
 				c.undec("C04.R2", gf.Key+"|url-attributes-routed", c.pos(gf.Decl.Pos()), gf.Name+" calls the URL attribute writer but does not take (element name string, parser.ExpressionAttribute)")
 				continue
+			}
+			if why, links := elementNameArrives(c, gp, gf.Decl, elemObj); true {
+				c.check(why == "", "C04.R2", gf.Key+"|element-name-arrives", c.pos(gf.Decl.Pos()), fmt.Sprintf("the element name reaches %s from the element's Name on every call chain (%d links followed)", gf.Name, links),
+					"the name by which "+gf.Name+" recognises <a href> and <form action> is not the element's name on every call chain: "+why+" — an attribute on that chain is never routed to the URL sanitiser")
 			}
 			den := &denum{info: g.info, pkg: gp.Types, inits: map[types.Object]ast.Expr{}, limit: 20000, opaqueLoops: true}
 			den.finish(den.run(gf.Decl.Body.List, []dstate{{env: map[types.Object]ast.Expr{}}}))
